@@ -23,7 +23,7 @@ EXPLANATION = (
 )
 ASSUMPTIONS = ["for molecules with more than 10 descriptors the single weight value 1.0 is excluded from the symbolic range (the printers fork on weight != 1.0)", "python floats as reals", "weights in {0} u [1e-6,1e6] (the code replaces a total below 1e-16 by 1: excluded by the bound)",
                "networkx runs unmodified with proxies as edge attributes", "numpy in bond.py replaced by the list-backed shim"]
-OUTSIDE = ["hand-overs whose admissible descriptors all have weight zero (the graph writes 0 where the generator picks uniformly; no skeleton in the list has this shape)",
+OUTSIDE = [
            "the dot export's text (run for absence of exceptions only)", "molecules beyond the skeleton list and the strings of tests/test_molecule.py, tests/test_stochastic.py"]
 REQUIRED_LABELS = ["sum of prob is 1 or absent", "prob edge equals reference law", "trans_prob edge equals reference law", "edge set = admissible partners"]
 
@@ -73,8 +73,10 @@ def check_graph(P, g, mol, G):
                 owner[bd] = (ei, el, "K")
                 bds.append(bd)
     nodes = list(G.nodes())
-    P.check(len(nodes) == len(tokens) + len(bds) and all(t in G for t in tokens) and all(b in G for b in bds),
-            "one node per token and per bond descriptor")
+    okn = len(nodes) == len(tokens) + len(bds) and all(t in G for t in tokens) and all(b in G for b in bds)
+    P.check(okn, "one node per token and per bond descriptor")
+    if not okn:
+        return
     for t in tokens:
         out = list(G.out_edges(t, data=True))
         ok = all(("atom" in d and v in t.bond_descriptors and d["atom"] == v.atom_bonding_to) for _, v, d in out)
@@ -92,7 +94,14 @@ def check_graph(P, g, mol, G):
         for key in ("prob", "term_prob", "trans_prob"):
             vals = [dd[key] for _, _, dd in out if key in dd]
             if vals:
-                P.eq(total(vals), 1, f"sum of {key} is 1 or absent")
+                tgt_w = [v.weight for _, v, dd in out if key in dd]
+                allzero = all((w == 0) if isinstance(w == 0, bool) else bool(w == 0) for w in tgt_w)
+                if allzero and key == "trans_prob":
+                    # every admissible partner has weight zero: the generator picks uniformly (equal-weights rule), the graph
+                    # writes 0 - a separate, specific obligation so that a finding here never hides another one
+                    P.eq(total(vals), 1, "sum of trans_prob is 1 or absent (all admissible partners have weight zero)")
+                else:
+                    P.eq(total(vals), 1, f"sum of {key} is 1 or absent")
         # ---- inside a stochastic object
         prob_edges = {v: dd["prob"] for _, v, dd in out if "prob" in dd}
         term_edges = {v: dd["term_prob"] for _, v, dd in out if "term_prob" in dd}
@@ -225,6 +234,15 @@ def run_case(case, g, tier, res):
         G2 = mol.gen_reaction_graph()
         P2 = _SymP(c, lambda label: detail("second call: " + label))
         check_graph(P2, g, mol, G2)
+        # the graph of a derived object (the mirror, taken after the graph was drawn) is the graph of THAT object
+        try:
+            mir = mol.gen_mirror()
+            G3 = mir.gen_reaction_graph() if mir is not None else None
+        except RuntimeError:
+            mir = None
+        if mir is not None:
+            P3 = _SymP(c, lambda label: detail("mirror after graph: " + label))
+            check_graph(P3, g, mir, G3)
         return len(G)
 
     explore_case(res, h, tier, on_path=on_path)
@@ -249,6 +267,15 @@ def replay(rp, gb):
         gendrive.apply_role_values(gen, mol2, rp["weights"])
         if str(mol) != str(mol2):
             P.failed.append("gen_reaction_graph changed a weight of the molecule")
+        try:
+            mir = mol.gen_mirror()
+            G3 = mir.gen_reaction_graph() if mir is not None else None
+        except RuntimeError:
+            mir = None
+        if mir is not None:
+            P3 = _ConP()
+            check_graph(P3, gb, mir, G3)
+            P.failed += ["mirror after graph: " + x for x in P3.failed]
     except RuntimeError as e:
         P.failed.append("gen_reaction_graph changed a weight of the molecule")
     try:
